@@ -112,8 +112,9 @@ impl ProbabilisticStore {
 
         // Simple pseudo-random using operations count
         // This gives uniform distribution over time while being deterministic
-        let hash = self.operations_count.wrapping_mul(2654435761); // Prime multiplier
-        if hash.is_multiple_of(self.cleanup_probability) {
+        // (widened to u128: a wrapped product no longer lines up with every N-th operation)
+        let hash = u128::from(self.operations_count) * 2654435761; // Prime multiplier
+        if hash.is_multiple_of(u128::from(self.cleanup_probability)) {
             self.data.retain(|_, (_, expiry)| {
                 if let Some(exp) = expiry {
                     *exp > now
